@@ -21,6 +21,7 @@ fn exec_for(prop: &str) -> Exec {
         "C15" => props::corrupt::exec,
         "C20" => props::dict::exec,
         "C19" => props::bpetrain::exec,
+        "C17" => props::groups::exec,
         "C05" | "C09" => props::pipe::exec,
         "C01" | "C02" | "C03" | "C04" => props::tok::exec,
         _ => panic!("unknown property {prop}"),
@@ -54,6 +55,7 @@ fn main() {
                 "C15" => props::corrupt::run_c15(&mut c),
                 "C20" => props::dict::run_c20(&mut c),
                 "C19" => props::bpetrain::run_c19(&mut c),
+                "C17" => props::groups::run_c17(&mut c),
                 "C05" => props::pipe::run_c05(&mut c),
                 "C09" => props::pipe::run_c09(&mut c),
                 "C01" => props::tok::run_c01(&mut c),
